@@ -124,6 +124,25 @@ pub fn run(em: &mut Emitter, rng: &mut Rng, thorough: bool) {
                 if obs == w.as_slice() { Oracle::Pass } else { Oracle::Fail("absence-after-end-of-parent-touched-the-sibling".into()) }
             }, true);
         }
+        // a damaged end-of-contents marker is not the end of the enclosing value, whichever optional read
+        // polls for it (reference parser decides: 00 81 00 is a legal marker in BER only)
+        if ctx == Ctx::Indefinite && mode != 2 {
+            for term in [vec![0x00u8, 0x80], vec![0x20, 0x00], vec![0x00, 0x01, 0x00], vec![0x00, 0x81, 0x00], vec![0x00, 0x82, 0x00, 0x00]] {
+                let mut v = data[..data.len() - 2].to_vec(); v.extend(&term);
+                for last in [Prog::Take { opt: true, kind: 0, exp: None, body: Body::Generic }, Prog::Take { opt: true, kind: 1, exp: None, body: Body::Generic },
+                             Prog::Take { opt: true, kind: 2, exp: None, body: Body::Generic }, Prog::Take { opt: true, kind: 0, exp: Some((2, 5)), body: Body::Generic },
+                             Prog::Skip { variant: 0, fk: 0, fa: 0, fb: 0 }] {
+                    let mut inner: Vec<Prog> = (0..ts.len()).map(|_| Prog::Take { opt: false, kind: 0, exp: None, body: Body::Generic }).collect();
+                    inner.push(last);
+                    let ps = in_ctx(ctx, inner);
+                    let v2 = v.clone();
+                    prog_case(em, 901, mode, &ps, &v, move |obs| {
+                        let good = ref_parse_seq(mode, &v2, Ctx::Top, 0).map(|(_, u)| u == v2.len()).unwrap_or(false);
+                        match obs.first() { Some(0) if !good => Oracle::Fail("damaged-end-of-contents-accepted-as-the-end".into()), Some(1) if good => Oracle::Fail("legal-end-of-contents-rejected".into()), Some(3) => Oracle::Fail("panic".into()), _ => Oracle::Pass }
+                    }, true);
+                }
+            }
+        }
         // at the top level only the end of the INPUT is the end of the values: an indefinite value whose
         // end-of-contents is missing is not "absent", whichever optional read meets it
         if ctx == Ctx::Indefinite && mode != 2 {
